@@ -55,7 +55,8 @@ impl ChunkSerializer {
         new_size: u32,
         time: RtmpTimestamp,
     ) -> Result<Packet, ChunkSerializationError> {
-        if new_size > 2147483647 {
+        // A chunk size of zero could never carry any payload
+        if new_size == 0 || new_size > 2147483647 {
             return Err(ChunkSerializationError::InvalidMaxChunkSize {
                 attempted_chunk_size: new_size,
             });
